@@ -108,6 +108,13 @@ let split_lines (b : bytes) : bytes list =
 
 let run (cols : string array) : string =
   match cols.(0) with
+  | "hdr1" -> (match parse_b1 (unhex cols.(1)) with None -> "ERR" | Some h -> "OK\t" ^ hex (display_b1 h) ^ "\t" ^ hex h.bh_sender_bic)
+  | "hdr2" -> (match parse_b2 (unhex cols.(1)) with None -> "ERR" | Some h -> "OK\t" ^ hex (display_b2 h) ^ "\t" ^ hex (message_type_of h))
+  | "hdr3" -> "OK\t" ^ hex (user_header_display (unhex cols.(1)))
+  | "hdr5" -> "OK\t" ^ hex (trailer_display (unhex cols.(1)))
+  | "blocks" ->
+      let raw = unhex cols.(1) in
+      String.concat "\t" (List.map (fun i -> match extract_block raw (n_of_int i) with None -> "-" | Some b -> "=" ^ hex b) [1;2;3;4;5])
   | "classify" ->
       let ty = (match cols.(1) with "103" -> T103 | "202" -> T202 | "205" -> T205 | _ -> TOther) in
       let opt s = if s = "-" then None else Some (unhex s) in
